@@ -214,6 +214,10 @@ ApLazy(st, a, fr) ==
 (* clone_empty / clone_empty_in(backend) probe: the empty twin accepts a fresh value and (if cloneable) a lazy clone *)
 (* of the source's first element, is itself cloned and everything created is destroyed again; the source is unchanged *)
 ApCeProbe(st, a) == Out(st, "ok", <<>>, <<>>)
+(* element_clone()/element_drop() called directly: one clone of element i into scratch memory, destroyed again; ret = the clone *)
+ApFnPtrs(st, a, fr) == [Out(st, "ok", << <<fr[1], st.v[a.v].el[a.i + 1][2]>> >>, <<fr[1]>>) EXCEPT !.clones = <<st.v[a.v].el[a.i + 1][1]>>]
+(* Debug of the erased vector reports its length *)
+ApDebug(st, a) == Out(st, "ok", << <<Len(st.v[a.v].el), 0>> >>, <<>>)
 
 ---------------------------------------------------------------------------
 (* raw parts (C17): decomposing and rebuilding changes nothing, destroys nothing, touches no storage *)
@@ -378,6 +382,8 @@ Apply(st, a, fr) ==
     [] a.op = "clone_vec"          -> ApCloneVec(st, a, fr)
     [] a.op = "lazy"               -> ApLazy(st, a, fr)
     [] a.op = "ce_probe"           -> ApCeProbe(st, a)
+    [] a.op = "fn_ptrs"            -> ApFnPtrs(st, a, fr)
+    [] a.op = "debug"              -> ApDebug(st, a)
     [] a.op = "raw_roundtrip"      -> ApRaw(st, a)
     [] a.op \in {"push_wrong", "insert_wrong", "swap_wrong", "splice_wrong"} -> ApWrong(st, a, fr)
     [] a.op = "downcast_q"         -> ApDowncastQ(st, a)
@@ -401,7 +407,8 @@ Applicable(st, a) ==
        [] a.op = "iter_end" -> hk = "iter"
        [] a.op = "ext_drop" -> st.ext # <<>>
        [] a.op = "clone_vec" -> hk = "none" /\ a.to \in Vecs /\ a.to # a.v /\ Quiet(st, a.to)
-       [] a.op = "ce_probe" -> hk = "none"
+       [] a.op \in {"ce_probe", "debug"} -> hk = "none"
+       [] a.op = "fn_ptrs" -> hk = "none" /\ a.i < Len(st.v[a.v].el)
        [] a.op \in {"raw_roundtrip", "push_wrong", "insert_wrong", "splice_wrong", "place", "push_many"} -> hk = "none"
        [] a.op = "swap_wrong" -> hk = "none" /\ a.i < Len(st.v[a.v].el)
        [] a.op = "spare_write" -> hk = "none" /\ Len(st.v[a.v].el) + a.k <= st.v[a.v].cap
